@@ -6,6 +6,7 @@ import (
 	"crypto/elliptic"
 	"fmt"
 	"math/big"
+	"reflect"
 	"strings"
 
 	"github.com/ldclabs/cose/iana"
@@ -321,6 +322,46 @@ func streamEcdh(c *ctx) {
 					}
 				}
 				bad(kp, "private-with-coordinates-"+name)
+			}
+			// the public key derived from a private key that carries public coordinates: its own (in every form) or, wrongly,
+			// those of another key. The derived key denotes d.G or the conversion is refused; it never denotes the embedded point.
+			if own := fa["uncompressed"]; own != nil {
+				ox, _ := own.GetBytes(iana.EC2KeyParameterX)
+				for _, src := range []struct {
+					who string
+					fs  map[string]key.Key
+				}{{"own", fa}, {"foreign", fb}} {
+					for name, pk := range src.fs {
+						kp := cloneKey(ka)
+						for _, l := range []int{iana.EC2KeyParameterX, iana.EC2KeyParameterY} {
+							if v, ok := pk[l]; ok {
+								kp[l] = v
+							}
+						}
+						var dk key.Key
+						var err error
+						if p, pm := catch(func() { dk, err = ecdh.ToPublicKey(kp) }); p {
+							fail("ecdh-key", "ToPublicKey panics on a private key carrying "+src.who+" public coordinates ("+name+")", line+"|"+describe(kp), pm, "a key or an error")
+							continue
+						}
+						c.eval()
+						c.nontriv(fmt.Sprintf("topublic-embedded|%d|%s|%s|%v", dc.crv, src.who, name, err == nil))
+						if err != nil {
+							if src.who == "own" {
+								fail("ecdh-key", "ToPublicKey refused a private key carrying its own public coordinates ("+name+")", line+"|"+describe(kp), err, "the public key")
+							}
+							continue
+						}
+						dx, _ := dk.GetBytes(iana.EC2KeyParameterX)
+						if !bytes.Equal(dx, ox) || dk.Has(iana.EC2KeyParameterD) {
+							fail("ecdh-key", "the public key derived from a private key carrying "+src.who+" public coordinates ("+name+") is not the key of its private scalar", line+"|"+describe(kp), describe(dk), describe(own))
+							continue
+						}
+						if oy, ok := own[iana.EC2KeyParameterY]; ok && !reflect.DeepEqual(dk[iana.EC2KeyParameterY], oy) {
+							fail("ecdh-key", "the public key derived from a private key carrying "+src.who+" public coordinates ("+name+") is not the key of its private scalar", line+"|"+describe(kp), describe(dk), describe(own))
+						}
+					}
+				}
 			}
 			other := dhCurves[(dc.crv)%4] // the next curve
 			if ko, err := ecdh.GenerateKey(other.crv); err == nil {
